@@ -741,8 +741,9 @@ def explore(fn, max_paths=200000, timeout_s=3600, qtimeout_ms=20000, expected=()
             import traceback
             tb = traceback.extract_tb(e.__traceback__)
             where = "%s:%d" % (tb[-1].filename.split("/")[-1], tb[-1].lineno) if tb else "?"
-            if tb and _is_harness_file(tb[-1].filename) and not isinstance(e, AssertionError):
-                # raised by harness / engine code itself, not by the code under test: never a verdict
+            if tb and not any(_is_repo_file(fr.filename) for fr in tb) and not isinstance(e, AssertionError):
+                # no frame of the code under test on the stack: raised by harness / engine code itself, never a verdict
+                # (an exception raised by a stub or proxy *while the code under test is running* is that code's exception)
                 outcome = "inconclusive"
                 st["inconclusive"].append("harness error %s: %s @%s" % (type(e).__name__, e, where))
                 tb = None
@@ -797,6 +798,11 @@ _HERE = __file__.rsplit("/", 2)[0]
 
 def _is_harness_file(fn):
     return fn.startswith(_HERE + "/")
+
+
+def _is_repo_file(fn):
+    from . import repo
+    return fn.startswith(repo.REPO.rstrip("/") + "/")
 
 
 def _safe_assignment(sp):
